@@ -128,6 +128,12 @@ def write_nifti_image(data: Tensor, grid: Grid, path: PathUri) -> None:
     affine[:2] *= -1
     with StorageObject.from_path(path) as obj:
         local_path = unlink_or_mkdir(obj.path)
+        # Header and image data file of a file pair are both written, unlink the paired file as well
+        name = local_path.name
+        for suffix, paired in ((".hdr", ".img"), (".img", ".hdr"), (".hdr.gz", ".img.gz"), (".img.gz", ".hdr.gz")):
+            if name.lower().endswith(suffix):
+                local_path.with_name(name[: -len(suffix)] + paired).unlink(missing_ok=True)
+                break
         image = nib.Nifti1Image(dataobj, affine)
         if nchannels > 1:
             image.header.set_intent("vector")
